@@ -56,6 +56,15 @@ type Ptr struct {
 	Path []int
 }
 
+// ArrWin is a pointer to an array that is a window [Off, Off+Len) of a larger backing array
+// ((*[32]byte)(x[32:]) for a 64-byte x).
+type ArrWin struct {
+	Obj  *Object
+	Path []int
+	Off  int
+	Len  int
+}
+
 type SliceV struct {
 	Obj  *Object // object containing the backing array
 	Path []int   // path to the backing array inside Obj
